@@ -10,6 +10,22 @@ CLAIMED = {
    technique='bounded-exhaustive enumeration + proptest random sequences against a reference predicate; output read with syn',
    text='Every declaration sequence of up to 3 (quick) / 4 (thorough) (group,binding) pairs over 4 groups x 3 bindings is enumerated, with validation off and on, plus thousands of random sequences with indices up to u32::MAX; each result is compared with a reference predicate on the sequence (duplicate -> DuplicateBinding naming a repeated index, else gap -> NonConsecutiveBindGroups, else Ok with every declared slot present exactly once in its own group). Exhaustive within the bound, sampled beyond it.',
    note='naga 24.0.0 called directly by the harness is the reference for "the validator rejects"; Ok outputs are read with syn (layout entries, bind entries, resource struct fields, set index, pipeline layout order).'),
+ 'C17': dict(category='exploration', design_ref='DESIGN.md §5 C17',
+   technique='proptest text/token/semantic corruption of valid shaders, differential against naga called directly (parser, validator, diagnostics)',
+   text='Thousands of corrupted shaders per run (byte/token level corruptions and appended parsable-but-invalid snippets of generated shaders and repository fixtures) are given to the generator with validation off and with a generated capability set; naga called directly on the same text decides what must happen: reference parse error => ParseError with the same message and the same rendered diagnostics (all four emit_* helpers, none panicking); reference validation error => ValidationError likewise; reference accepts => identical outcome with and without validation (same text byte for byte, same error, or a panic in both).',
+   note='naga 24.0.0 as linked into the harness is the reference; texts on which naga itself panics are skipped and counted. Stack overflow inside naga on deeply nested input is outside the proptest tier (covered by the libFuzzer tier when built).'),
+ 'C18': dict(category='exploration', design_ref='DESIGN.md §5 C18',
+   technique='proptest-generated call histories (incl. failing, panicking and concurrent calls) executed in worker processes, compared with fresh-process references under randomised environments',
+   text='Each generated history (sequence of generator calls on 1-4 keys, interleaved with failing and panicking calls and with concurrent blocks of 2-5 threads) runs in one worker process; every result is compared byte for byte with the reference of its key, which comes from two fresh processes with different randomised environments (cwd, HOME, TMPDIR, LANG, RUST_*, env size; std hash seeds differ per process and per set) that must agree with each other.',
+   note='Thread schedules are not controlled: concurrency is stress-level evidence only. rustfmt is off in this check (formatter behaviour is C19).'),
+ 'C19': dict(category='fault_enumeration', design_ref='DESIGN.md §5 C19',
+   technique='fault injection: stub rustfmt on the PATH of a worker child (12 fault modes x output size classes x repeated timing samples); token-level metamorphic comparison with rustfmt off',
+   text='The generator runs in a child process whose PATH resolves rustfmt to a stub that is absent, passes through to the real formatter, is slow, exits non-zero after / before / part-way through reading, kills itself before / after reading, prints nothing with exit 0, or closes stdin early; shaders are generated in two size classes so the unformatted code is below and far above the 64 KiB pipe buffer, and each fault is repeated to sample the exit-versus-write race. The child must return Ok with text token-identical to the rustfmt:false output; a panic, a dead process, a hang (60 s watchdog with < 1 s CPU used) or truncated/empty text is a violation.',
+   note='Token identity uses proc-macro2 tokens with two normalisations (trailing comma before a closing delimiter; semicolon directly after a closing brace). Timing races are sampled, not enumerated.'),
+ 'C20': dict(category='exploration', design_ref='DESIGN.md §5 C20',
+   technique='scaling families + proptest random call DAGs, CPU time of a worker child against a fixed threshold with >50x slack',
+   text='Deterministic members of the call-graph families (chains with 1-3 call sites per level and mixed value/void calls up to depth 64, diamonds up to 40 layers, fan-out to a shared chain), nested struct type graphs up to depth 26, wide flat shaders (hundreds of bindings/members/constants) and random helper DAGs of up to 300 functions are each generated in a worker child; the child\'s own CPU time must stay below 2 s (shallow shaders of the same size cost < 0.06 s measured; the defect class it targets doubles per level).',
+   note='CPU seconds (getrusage in the child, RLIMIT_CPU kill at 12 s), never wall clock. A crashed worker (stack overflow) is counted as skipped, not as a violation.'),
 }
 PENDING = 'check not built yet in this round (see DESIGN.md §10 build order)'
 
